@@ -10,9 +10,9 @@ from vlib import (Verdict, build_harness, run_harness, tlc_check, tlc_trace, wri
 
 CBASE = {"Clients": {"c1", "c2"}, "MaxVer": 4, "Dev": set(), "Faults": False, "PageSize": 0, "MaxOps": 3,
          "Ops": {"AV", "GC"}, "Draws": {255}, "WithAges": False, "MaxFaults": 0, "Emit": False,
-         "MaxLen": 9999}
+         "MaxLen": 9999, "Sit": "-"}
 CINVS = ["OneChildPerParent", "AckedOnChain", "ReadsOnChain", "RetainedComplete",
-         "FreshCanReconstruct", "SnapshotRetained"]
+         "FreshCanReconstruct", "RetainedSuffixAll", "SnapshotRetained"]
 
 
 def cconsts(**kw):
@@ -52,7 +52,7 @@ def cgen(wd, name, c, simulate=None, depth=None, timeout=300, limit=None):
     return sch
 
 
-def cconform(v, wd, name, c, schedules, invs=CINVS[:5], max_failures=3, page_size=100000,
+def cconform(v, wd, name, c, schedules, invs=CINVS[:6], max_failures=3, page_size=100000,
              dev=frozenset()):
     if not schedules:
         v.tool_errors.append(f"{name}: TLC produced no schedules")
@@ -159,3 +159,31 @@ def cwitness(wd, name, c, timeout=300, limit=5):
     os.remove(r["out"])
     log(f"[witness] {name}: {len(sch)} violating schedules, shortest {len(sch[0]) if sch else 0} steps")
     return sch[:limit]
+
+
+def csituations(wd, name, c, sit, timeout=300, limit=20, faults=False):
+    """Shortest schedules into a rarely reached situation (MCCloud.InSit); optionally continued
+    by stopping the marked client's operation after 0..3 further requests."""
+    c = dict(c, Emit=True, Sit=sit)
+    cfg = write_cfg(os.path.join(wd, name + ".cfg"), c, init="MInit", next_="MNext",
+                    invariants=["MEmitSit"], view="MView")
+    r = tlc_check(wd, name, "MCCloud.tla", cfg, timeout=timeout)
+    sch = replay_lines(r["out"])
+    os.remove(r["out"])
+    sch.sort(key=len)
+    rnd = random.Random(seed())
+    picked = sch[:limit // 2] + (rnd.sample(sch[limit // 2:], min(len(sch) - limit // 2, limit - limit // 2))
+                                  if len(sch) > limit // 2 else [])
+    out = []
+    for h in picked:
+        mark = h[-1]["c"]
+        base = h[:-1]
+        out.append(base)
+        if faults:
+            for j in range(0, 4):
+                for kind in ("FailBefore", "FailAfter"):
+                    out.append(base + [{"a": "Step", "c": mark, "draw": 255, "arg": 0}] * j
+                               + [{"a": kind, "c": mark, "draw": -1, "arg": 0}])
+    log(f"[situations] {name}: {len(sch)} schedules into '{sit}', {len(picked)} used "
+        f"-> {len(out)} stimuli")
+    return out
